@@ -87,7 +87,9 @@ package cpuset
 //@ func NewCPUSet [C06]
 //@   ensures #set: forall c int :: has(result.elems, c) <==> inSlice(cpus, c)
 //@   ensures #fresh: result.elems != nil && fresh(result.elems)
+//@   ensures #same: forall i int :: {cpus[i]} 0 <= i && i < len(cpus) ==> cpus[i] == old(cpus[i])
 //@   modifies allelems(scratchInts())
 //@   loop 1 invariant b != nil && fresh(b) && !b.done && b.result.elems != nil && fresh(b.result.elems)
 //@   loop 1 invariant 0 <= $i && $i <= len(cpus)
 //@   loop 1 invariant forall c int :: has(b.result.elems, c) <==> (exists i int :: 0 <= i && i < $i && cpus[i] == c)
+//@   loop 1 invariant forall i int :: {cpus[i]} 0 <= i && i < len(cpus) ==> cpus[i] == old(cpus[i])
